@@ -210,6 +210,10 @@ impl<'a> GenCtx<'a> {
                 ISpec::G(gen_graph(r))
             };
         }
+        if r.chance(1, 30) {
+            // the empty list, alone or nested
+            return if r.chance(1, 3) { ISpec::L(vec![ISpec::L(vec![])]) } else { ISpec::L(vec![]) };
+        }
         match r.below(16) {
             0..=6 => ISpec::Int(gen_int(r)),
             7..=9 => ISpec::F(gen_float(r, &self.fpool)),
